@@ -221,6 +221,17 @@ def step (sess : Session) (line : String) : Session × String :=
   | "wsubmit" :: rest => webEvent sess (fun p => Page.submit sess.fuel (argText rest) p)
   | ["wbreak"] => webEvent sess (fun p => Page.break sess.fuel p)
   | ["wtick"] => webEvent sess (fun p => Page.tick sess.fuel p)
+  -- the same events sent to the page script itself (main.ts under node): the model of the page is the same
+  | "rnew" :: _ => ({ sess with page := some {}, uiSeen := 0 }, "ok")
+  | ["rstart"] => (sess, "ok")
+  | ["rseed", n] =>
+    (match sess.page with
+     | some p => ({ sess with page := some { p with js := { p.js with core := { p.js.core with rng := rngNew n.toNat! } } } }, "ok")
+     | none => (sess, "TRAPPED"))
+  | "rload" :: rest => webEvent sess (fun p => Page.load sess.fuel (argText rest) p)
+  | "rsubmit" :: rest => webEvent sess (fun p => Page.submit sess.fuel (argText rest) p)
+  | ["rbreak"] => webEvent sess (fun p => Page.break sess.fuel p)
+  | ["rtick"] => webEvent sess (fun p => Page.tick sess.fuel p)
   | ["state"] => (sess, encState sess.st.state)
   | ["reads"] => (sess, toString sess.st.reads)
   | ["nesting"] => (sess, toString sess.st.nesting)
